@@ -1,0 +1,7 @@
+//go:build !verif
+
+package bigbuff
+
+// verifPoint is a no-op unless the package is built with the "verif" build tag (see verif_on.go);
+// the empty body is inlined away by the compiler.
+func verifPoint(string, any, int) {}
